@@ -1,5 +1,5 @@
-(* C13 x (C02, C10, C01) -- beam search on the real environment models CVRP and TSP.
-   Only statements closed by [exact], their Print Assumptions, and Examples.  Proofs: Compose/BeamOnEnvs.v.
+(* C13 x (C02, C10, C01) -- beam search on the real environment models CVRP, TSP, OP and PCTSP / SPCTSP.
+   Only statements closed by [exact], their Print Assumptions, and Examples.  Proofs: Compose/BeamOnEnvs.v, BeamOnEnvs2.v.
 
    Reading guide.
    * Properties/C13.v proves the beam-search theorems for an ABSTRACT environment E; its totality theorems
@@ -24,10 +24,21 @@
      The abstract theorem is therefore instantiated with [pad (restrict TSP (tsp_okb n)) n] (all-true mask wherever
      the TSP mask is empty or of the wrong length) and carried back to [TSP] itself: all rows move in lockstep, so
      the loop never expands a finished row (section 4).  Composed: C13 totality, C10, C02 (tsp_no_dead_end,
-     tsp_done_iff, tsp_bound via lockstep), C01 (tsp_mask_sound).  [tsp_feasible] = every city exactly once. *)
+     tsp_done_iff, tsp_bound via lockstep), C01 (tsp_mask_sound).  [tsp_feasible] = every city exactly once.
+   * OP and PCTSP / SPCTSP (sections 5, 6; proofs in Compose/BeamOnEnvs2.v): variable-length environments with a
+     padding action, handled like CVRP (restriction to the well-formed instances with n customers + homomorphism),
+     through ONE generic theorem (BeamOnEnvs2.v Part A) whose hypotheses are exactly the C02 / C01 theorems of an
+     environment.  No hypothesis of the abstract theorems is false for them.  OP: C02 (op_no_dead_end, op_step_ok,
+     op_done_stable, op_bound), C01 (op_mask_sound); [op_feasible] = no customer twice, nodes exist, total walk
+     length (every return to the depot included) <= the ORIGINAL max_length.  PCTSP: C02 (pctsp_no_dead_end,
+     pctsp_step_ok, pctsp_done_stable, pctsp_bound), C01 (pctsp_mask_sound); [pctsp_feasible] = one closed tour,
+     no customer twice, nodes exist, collected prize >= the requirement unless every customer is visited.  The PCTSP
+     model covers SPCTSPEnv too: the instance field [stoch] selects the prize vector that is collected (C01_spctsp.v),
+     and the theorems quantify over it. *)
 From Coq Require Import List Bool Arith Lia ZArith QArith Qcanon.
 From RL4CO Require Import Base.Num Base.OField Base.OFieldQc Base.EnvSig Spec.Routes Spec.Tours
-     Decoding.Beam Decoding.BeamProofs Env.CVRP Env.CVRPProofs Env.TSP Env.TSPProofs Compose.EnvRestrict Compose.BeamOnEnvs.
+     Decoding.Beam Decoding.BeamProofs Env.CVRP Env.CVRPProofs Env.TSP Env.TSPProofs Env.OP Env.OPProofs Env.PCTSP Env.PCTSPProofs
+     Compose.EnvRestrict Compose.BeamOnEnvs Compose.BeamOnEnvs2.
 Import ListNotations.
 Local Open Scope nat_scope.
 
@@ -191,6 +202,103 @@ Proof. exact beam_search_on_tsp_finishes. Qed.
 Print Assumptions C13_beam_search_on_tsp_finishes_within_n_minus_1_steps.
 
 (* ================================================================================================ *)
+(** * 5. OP: beam search never raises and returns feasible beams *)
+
+(* For every n (n = 0 included), every process_logits configuration, every decoder emitting n + 1 logits, every beam
+   width, every non-empty batch of OP instances in the documented format (op_wf) with n customers, every accepted
+   list of offered forced first moves and EVERY fuel: the loop never raises; every row holds an instance of the batch
+   and the history of its state, admitted by the OP masks, with positive probability, and a solution of the
+   orienteering instance whenever the row is finished. *)
+Theorem C13_beam_search_on_op_never_raises_and_beams_feasible :
+  forall (n : nat) (clip tmp : Z -> Z) (top_p : Qc) (top_k : nat) (dec : op_inst -> op_st -> list Z),
+    (forall i s, op_wf i -> op_n i = n -> length (dec i s) = S n) ->
+  forall (W B : nat) (insts : list op_inst) (starts : list nat) (bs0 : bstate (OP exact) Qc) (fuel : nat),
+    length insts = B -> 0 < B ->
+    (forall i, In i insts -> op_wf i /\ op_n i = n) ->
+    pre_hook (OP exact) Qc 1%Qc W insts starts = Some bs0 ->
+    (forall r i a, nth_error insts (r mod B) = Some i -> nth_error starts r = Some a ->
+       offered (E:=OP exact) i (reset (OP exact) i) a = true) ->
+    exists bs, loop (OP exact) Qc Qcmult 0%Qc Qcleb (lpQc clip tmp top_p top_k (OP exact) dec) fuel W bs0 = Some bs /\
+      forall r, r < W * B -> exists (i : op_inst) (h : list nat),
+        nth_error insts (r mod B) = Some i /\
+        nth_error (b_rows (OP exact) Qc bs) r = Some (i, run (E:=OP exact) i h, h) /\ h <> [] /\
+        adm (E:=OP exact) i h = true /\
+        (0 < score (OP exact) Qc Qcmult 1%Qc 0%Qc (lpQc clip tmp top_p top_k (OP exact) dec) i h)%Qc /\
+        (done (OP exact) i (run (E:=OP exact) i h) = true -> op_feasible i h).
+Proof. exact beam_search_on_op. Qed.
+Print Assumptions C13_beam_search_on_op_never_raises_and_beams_feasible.
+
+(* C02 bound: an admitted episode none of whose proper prefixes is finished has at most max(n + 1, 2) moves, the first
+   of them forced by pre_hook: fuel for max(n, 1) steps is enough, the loop stops with ALL rows finished and every
+   returned beam is a solution of its orienteering instance *)
+Theorem C13_beam_search_on_op_finishes_within_n_steps :
+  forall (n : nat) (clip tmp : Z -> Z) (top_p : Qc) (top_k : nat) (dec : op_inst -> op_st -> list Z),
+    (forall i s, op_wf i -> op_n i = n -> length (dec i s) = S n) ->
+  forall (W B : nat) (insts : list op_inst) (starts : list nat) (bs0 : bstate (OP exact) Qc) (fuel : nat),
+    length insts = B -> 0 < B ->
+    (forall i, In i insts -> op_wf i /\ op_n i = n) ->
+    pre_hook (OP exact) Qc 1%Qc W insts starts = Some bs0 ->
+    (forall r i a, nth_error insts (r mod B) = Some i -> nth_error starts r = Some a ->
+       offered (E:=OP exact) i (reset (OP exact) i) a = true) ->
+    Nat.max n 1 <= fuel ->
+    exists bs, loop (OP exact) Qc Qcmult 0%Qc Qcleb (lpQc clip tmp top_p top_k (OP exact) dec) fuel W bs0 = Some bs /\
+      all_done (OP exact) Qc bs = true /\
+      forall r, r < W * B -> exists (i : op_inst) (h : list nat),
+        nth_error insts (r mod B) = Some i /\
+        nth_error (b_rows (OP exact) Qc bs) r = Some (i, run (E:=OP exact) i h, h) /\ h <> [] /\
+        adm (E:=OP exact) i h = true /\
+        (0 < score (OP exact) Qc Qcmult 1%Qc 0%Qc (lpQc clip tmp top_p top_k (OP exact) dec) i h)%Qc /\
+        done (OP exact) i (run (E:=OP exact) i h) = true /\ op_feasible i h.
+Proof. exact beam_search_on_op_finishes. Qed.
+Print Assumptions C13_beam_search_on_op_finishes_within_n_steps.
+
+(* ================================================================================================ *)
+(** * 6. PCTSP / SPCTSP: beam search never raises and returns feasible beams *)
+
+(* The same for the prize-collecting environments (pctsp_wf contains n >= 1; [stoch i] = false is a PCTSPEnv row,
+   [stoch i] = true an SPCTSPEnv row; a batch may even mix them). *)
+Theorem C13_beam_search_on_pctsp_never_raises_and_beams_feasible :
+  forall (n : nat) (clip tmp : Z -> Z) (top_p : Qc) (top_k : nat) (dec : pctsp_inst -> pctsp_st -> list Z),
+    (forall i s, pctsp_wf i -> pn_of i = n -> length (dec i s) = S n) ->
+  forall (W B : nat) (insts : list pctsp_inst) (starts : list nat) (bs0 : bstate (PCTSP exact) Qc) (fuel : nat),
+    length insts = B -> 0 < B ->
+    (forall i, In i insts -> pctsp_wf i /\ pn_of i = n) ->
+    pre_hook (PCTSP exact) Qc 1%Qc W insts starts = Some bs0 ->
+    (forall r i a, nth_error insts (r mod B) = Some i -> nth_error starts r = Some a ->
+       offered (E:=PCTSP exact) i (reset (PCTSP exact) i) a = true) ->
+    exists bs, loop (PCTSP exact) Qc Qcmult 0%Qc Qcleb (lpQc clip tmp top_p top_k (PCTSP exact) dec) fuel W bs0 = Some bs /\
+      forall r, r < W * B -> exists (i : pctsp_inst) (h : list nat),
+        nth_error insts (r mod B) = Some i /\
+        nth_error (b_rows (PCTSP exact) Qc bs) r = Some (i, run (E:=PCTSP exact) i h, h) /\ h <> [] /\
+        adm (E:=PCTSP exact) i h = true /\
+        (0 < score (PCTSP exact) Qc Qcmult 1%Qc 0%Qc (lpQc clip tmp top_p top_k (PCTSP exact) dec) i h)%Qc /\
+        (done (PCTSP exact) i (run (E:=PCTSP exact) i h) = true -> pctsp_feasible i h).
+Proof. exact beam_search_on_pctsp. Qed.
+Print Assumptions C13_beam_search_on_pctsp_never_raises_and_beams_feasible.
+
+(* C02 bound n + 1 moves, the first forced: fuel for n steps finishes every row *)
+Theorem C13_beam_search_on_pctsp_finishes_within_n_steps :
+  forall (n : nat) (clip tmp : Z -> Z) (top_p : Qc) (top_k : nat) (dec : pctsp_inst -> pctsp_st -> list Z),
+    (forall i s, pctsp_wf i -> pn_of i = n -> length (dec i s) = S n) ->
+  forall (W B : nat) (insts : list pctsp_inst) (starts : list nat) (bs0 : bstate (PCTSP exact) Qc) (fuel : nat),
+    length insts = B -> 0 < B ->
+    (forall i, In i insts -> pctsp_wf i /\ pn_of i = n) ->
+    pre_hook (PCTSP exact) Qc 1%Qc W insts starts = Some bs0 ->
+    (forall r i a, nth_error insts (r mod B) = Some i -> nth_error starts r = Some a ->
+       offered (E:=PCTSP exact) i (reset (PCTSP exact) i) a = true) ->
+    n <= fuel ->
+    exists bs, loop (PCTSP exact) Qc Qcmult 0%Qc Qcleb (lpQc clip tmp top_p top_k (PCTSP exact) dec) fuel W bs0 = Some bs /\
+      all_done (PCTSP exact) Qc bs = true /\
+      forall r, r < W * B -> exists (i : pctsp_inst) (h : list nat),
+        nth_error insts (r mod B) = Some i /\
+        nth_error (b_rows (PCTSP exact) Qc bs) r = Some (i, run (E:=PCTSP exact) i h, h) /\ h <> [] /\
+        adm (E:=PCTSP exact) i h = true /\
+        (0 < score (PCTSP exact) Qc Qcmult 1%Qc 0%Qc (lpQc clip tmp top_p top_k (PCTSP exact) dec) i h)%Qc /\
+        done (PCTSP exact) i (run (E:=PCTSP exact) i h) = true /\ pctsp_feasible i h.
+Proof. exact beam_search_on_pctsp_finishes. Qed.
+Print Assumptions C13_beam_search_on_pctsp_finishes_within_n_steps.
+
+(* ================================================================================================ *)
 (** * Examples (non-vacuity): concrete batches and decoders satisfying every hypothesis, and their runs *)
 
 (* two CVRP instances (demands 3 4 5 and 2 2 6, capacity 8), decoder logits [0; 2; 1; current node], beam width 2,
@@ -245,3 +353,44 @@ Example C13_compose_ex_tsp_step_after_done_raises :
   | None => False
   end.
 Proof. exact ex_tsp_step_after_done_raises. Qed.
+
+(* two OP instances with 2 customers (distances 3, 4, 5; length limits 13 and 20), decoder logits [0; 2; current node],
+   beam width 2, forced first moves (1, 2) for both *)
+Example C13_compose_ex_op_hypotheses :
+  (forall i, In i [ex_op_a; ex_op_b] -> op_wf i /\ op_n i = 2) /\
+  (forall i s, op_wf i -> op_n i = 2 -> length (ex_op_dec i s) = 3) /\
+  (forall r i a, nth_error [ex_op_a; ex_op_b] (r mod 2) = Some i -> nth_error [1; 1; 2; 2] r = Some a ->
+     offered (E:=OP exact) i (reset (OP exact) i) a = true).
+Proof. exact ex_op_hypotheses. Qed.
+
+(* fuel max(n, 1) = 2: rows (history, op_feasibleb, finished) and the accumulated probabilities *)
+Example C13_compose_ex_op_run :
+  ex_op_show (match pre_hook (OP exact) Qc 1%Qc 2 [ex_op_a; ex_op_b] [1; 1; 2; 2] with
+              | Some bs0 => loop (OP exact) Qc Qcmult 0%Qc Qcleb ex_op_lp 2 2 bs0 | None => None end)
+  = Some ([([2; 1; 0], true, true); ([2; 1; 0], true, true); ([1; 2; 0], true, true); ([1; 2; 0], true, true)],
+          [4 # 5; 4 # 5; 2 # 3; 2 # 3]%Q).
+Proof. vm_compute. reflexivity. Qed.
+
+(* one PCTSPEnv row and one SPCTSPEnv row with 3 customers, decoder logits [0; 2; 1; current node], beam width 2 *)
+Example C13_compose_ex_pctsp_hypotheses :
+  (forall i, In i [ex_pc_a; ex_pc_b] -> pctsp_wf i /\ pn_of i = 3) /\
+  (forall i s, pctsp_wf i -> pn_of i = 3 -> length (ex_pc_dec i s) = 4) /\
+  (forall r i a, nth_error [ex_pc_a; ex_pc_b] (r mod 2) = Some i -> nth_error [1; 1; 2; 3] r = Some a ->
+     offered (E:=PCTSP exact) i (reset (PCTSP exact) i) a = true).
+Proof. exact ex_pctsp_hypotheses. Qed.
+
+(* fuel n = 3: rows (history, pctsp_feasibleb, finished) *)
+Example C13_compose_ex_pctsp_run :
+  ex_pc_show (match pre_hook (PCTSP exact) Qc 1%Qc 2 [ex_pc_a; ex_pc_b] [1; 1; 2; 3] with
+              | Some bs0 => loop (PCTSP exact) Qc Qcmult 0%Qc Qcleb ex_pc_lp 3 2 bs0 | None => None end)
+  = Some ([([1; 3; 2; 0], true, true); ([3; 1; 2; 0], true, true); ([1; 2; 3; 0], true, true); ([1; 2; 3; 0], true, true)],
+          [1 # 2; 2 # 3; 2 # 5; 2 # 5]%Q).
+Proof. vm_compute. reflexivity. Qed.
+
+(* out of fuel after 1 step: Some, admitted, positive, unfinished and not yet solutions (the conditional form) *)
+Example C13_compose_ex_pctsp_run_out_of_fuel :
+  ex_pc_show (match pre_hook (PCTSP exact) Qc 1%Qc 2 [ex_pc_a; ex_pc_b] [1; 1; 2; 3] with
+              | Some bs0 => loop (PCTSP exact) Qc Qcmult 0%Qc Qcleb ex_pc_lp 1 2 bs0 | None => None end)
+  = Some ([([1; 2], false, false); ([3; 1], false, false); ([1; 3], false, false); ([1; 2], false, false)],
+          [1 # 2; 2 # 3; 1 # 2; 1 # 2]%Q).
+Proof. vm_compute. reflexivity. Qed.
